@@ -58,6 +58,7 @@ static std::string env_entry(const std::string& spec, const std::string& input, 
     fld("hour", a.tm_hour, b.tm_hour, a0.tm_hour, b0.tm_hour);
     fld("min", a.tm_min, b.tm_min, a0.tm_min, b0.tm_min);
     fld("sec", a.tm_sec, b.tm_sec, a0.tm_sec, b0.tm_sec);
+    fld("wday", a.tm_wday, b.tm_wday, a0.tm_wday, b0.tm_wday);
   }
   w += "}";
   int pm = 0;
